@@ -178,6 +178,23 @@ Theorem C09_category_is_resolver_message : forall r,
 Proof. exact category_table. Qed.
 Print Assumptions C09_category_is_resolver_message.
 
+(* ---------- the declared type of a variable ---------- *)
+(* the latest `make` of a name in a block gives its type; nothing else (reassignment, nested
+   blocks, loops, branches, function definitions) changes the context of the following statements *)
+Theorem C09_make_gives_the_declared_type : forall c sid x l e,
+  lookup_var (cx_vars (after c (SMake sid x l e))) x
+  = Some (match infer c e with Some t => t | None => TDynamic end).
+Proof. exact make_retypes. Qed.
+Print Assumptions C09_make_gives_the_declared_type.
+Theorem C09_make_leaves_other_names : forall c sid x l e y, x <> y ->
+  lookup_var (cx_vars (after c (SMake sid x l e))) y = lookup_var (cx_vars c) y.
+Proof. exact make_keeps_others. Qed.
+Print Assumptions C09_make_leaves_other_names.
+Theorem C09_only_make_changes_the_context : forall c s,
+  (forall sid x l e, s <> SMake sid x l e) -> after c s = c.
+Proof. exact only_make_retypes. Qed.
+Print Assumptions C09_only_make_changes_the_context.
+
 (* ---------- non-vacuity ---------- *)
 (* DESIGN section 7 row 9: `comot` in a function defined inside a loop, reported at its position *)
 Example ex_row9 : check ex_break_in_fn_in_loop = [(BreakOutsideLoop, [1; 0; 1; 0; 0]%nat)].
@@ -212,3 +229,10 @@ Theorem C09_ran_was_accepted :
   ltac:(let t := type of NS.Properties.PIPELINE.PIPELINE_ran_was_accepted in exact t).
 Proof. exact NS.Properties.PIPELINE.PIPELINE_ran_was_accepted. Qed.
 Print Assumptions C09_ran_was_accepted.
+(* history of a variable, signature of a function *)
+Example ex_history : check ex_redeclared_ill = [(TypeMismatch, [2]%nat)] /\ check ex_redeclared_ok = []
+  /\ check ex_reassigned_ok = [].
+Proof. vm_compute. repeat split. Qed.
+(* (needs the repaired signature inference: GenRules.src_signature_names_dynamic = true, read off the source) *)
+Example ex_signature : check ex_hidden_in_else = [] /\ check ex_outer_result_ill = [(TypeMismatch, [2]%nat)].
+Proof. vm_compute. split; reflexivity. Qed.
